@@ -604,7 +604,8 @@ def sweep_combo(args):
             calls += 1
             p2 = path + (ev,)
             want = demanded(spec, configured, debug, canon, T, cache, list(p2))
-            nodes[p2] = (ob, ob[0] != want, want)
+            # a call cut off by the harness alarm (machine overloaded) is not evidence either way
+            nodes[p2] = (ob, ob[0] != want and 'timeout' not in (ob[0][0], want[0]), want)
             if kids[p2]:
                 visit(p2, g2)
     visit((), pristine)
@@ -807,6 +808,10 @@ def world_factory(kind):
         A = np.array([[2.0, 1.0], [1.0, 1.0]])
         from mitxgraders import MathArray
         consts = lambda: {'A': MathArray(A.copy())}      # noqa
+
+        def wipe(v):
+            v.fill(0)
+            return v
         graders = {
             'm_off': MatrixGrader(answers='A^2', user_constants=consts(), negative_powers=False, max_array_dim=2),
             'm_on': MatrixGrader(answers='A^-1', user_constants=consts(), max_array_dim=2),
@@ -816,6 +821,9 @@ def world_factory(kind):
             'single_m': SingleListGrader(subgrader=MatrixGrader(user_constants=consts(), negative_powers=False,
                                                                 max_array_dim=2), answers=['A', 'A^2'], delimiter=';'),
             'f_plain': FormulaGrader(answers='2^-1'),
+            # an author function that modifies its argument in place: harmless as long as eval_variable hands out copies
+            'm_wipe': MatrixGrader(answers='[[2,1],[1,1]]', user_constants=consts(), user_functions={'wipe': wipe},
+                                   max_array_dim=2),
         }
         menu = {
             'm_off': ([None], ['A^2', 'A*A', 'A^-1', 'A^-2*A^4', 'A^', 'A+1']),
@@ -824,6 +832,7 @@ def world_factory(kind):
             'm_quiet': ([None], ['A', 'A^-1*A*A', 'A^-1']),
             'single_m': ([None], ['A;A^2', 'A^2;A', 'A^-1;A', 'A;']),
             'f_plain': ([None], ['2^-1', '1/2', '0.5', '2^']),
+            'm_wipe': ([None], ['A', 'wipe(A)', 'A+wipe(A)', 'wipe(A)+A', 'A*']),
         }
         return graders, menu
 
@@ -839,6 +848,16 @@ def world_factory(kind):
     return {'shared': shared, 'matrices': matrices, 'debugsub': debugsub}[kind]
 
 
+INFERRED_LINE = re.compile(r'Expect value inferred to be .*?<br/>\\n')
+
+
+def strip_inferred_any(o):
+    """the debug log of a call given no expect value carries no "Expect value inferred" entry"""
+    if o[0] == 'ret':
+        return ('ret', INFERRED_LINE.sub('', o[1]))
+    return o
+
+
 def canon_any(status, value):
     """canonical outcome for mixed graders (debug logs of composite graders are compared as text)"""
     if status == 'timeout':
@@ -846,10 +865,6 @@ def canon_any(status, value):
     if status == 'exc':
         return ('raise', type(value).__name__, str(value))
     return ('ret', json.dumps(value, sort_keys=True, default=repr))
-
-
-def graders_state(graders):
-    return {n: fp(g) for n, g in graders.items()}
 
 
 def expect_stage(kind, name, expect):
@@ -912,10 +927,14 @@ def mixed_violation(kind, calls):
         if n2 == n and e2 is not None and valid_expect(kind, n, e2):
             last = e2
     want = mixed_reference(kind, n, last, e, s)
-    return outs[-1] != want, outs[-1], want
+    got = outs[-1]
+    if e is None:
+        got, want = strip_inferred_any(got), strip_inferred_any(want)
+    return got != want, got, want
 
 
 MIXED_CORPUS = [
+    ('matrices', [('m_wipe', None, 'wipe(A)'), ('m_wipe', None, 'A')]),
     ('debugsub', [('fgd', '1', '1'), ('single_fd', None, '1,2')]),
     ('shared', [('single_f', 'x,,1', 'x'), ('single_f', 'x,2*x', 'x,2*x')]),
 ]
@@ -958,12 +977,15 @@ def random_mixed(ctx, res, rng):
                     got = canon_any(st, v)
                     calls.append((n, e, s))
                     want = mixed_reference(kind, n, last.get(n), e, s)
+                    if e is None:
+                        got, want = strip_inferred_any(got), strip_inferred_any(want)
                     bad = None
-                    if got != want and not random_verdict_noise(got, want):
+                    if got != want and 'timeout' not in (got[0], want[0]):
                         bad = 'call returns %s; the same call on a freshly built set of graders returns %s' % (
                             repr(got)[:200], repr(want)[:200])
                     if not MathArray._negative_powers:
                         bad = 'MathArray._negative_powers is left False after the call'
+                        MathArray._negative_powers = MathArray._default_negative_powers
                     others_after = {m: fp(g) for m, g in graders.items() if m in others_before}
                     ch = [m for m in others_before if others_before[m] != others_after[m]]
                     if ch and bad is None:
@@ -994,7 +1016,10 @@ def random_mixed(ctx, res, rng):
                     res.nontrivial.add(('mixed', kind, tuple((a, repr(b), repr(c)) for a, b, c in calls)))
                 for k in diff_snap(before_settings, settings_snapshot()):
                     res.witnesses.append({'key': 'settings:%s/%s' % (kind, k), 'kind': 'settings', 'world': kind,
-                                          'setting': k, 'what': 'process-wide setting %s changed' % k})
+                                          'setting': k, 'calls': [list(c) for c in calls],
+                                          'what': 'process-wide setting %s changed during calls %r' % (k, calls[-3:])})
+                    if k == 'MathArray._negative_powers':
+                        MathArray._negative_powers = MathArray._default_negative_powers
         for h in watch.hits[:3]:
             res.witnesses.append({'key': 'scope:%s' % h['formula'], 'kind': 'scope', 'formula': h['formula'],
                                   'what': 'evaluator call changed the %s scope it was handed' % '/'.join(h['changed'])})
@@ -1017,10 +1042,6 @@ def shares(graders, a, b):
                     parts(x, acc)
         return acc
     return bool(set(parts(graders[a], {})) & set(parts(graders[b], {})))
-
-
-def random_verdict_noise(got, want):
-    return False
 
 
 # ------------------------------------------------------------------------------------------------
@@ -1113,6 +1134,9 @@ def construction_checks(ctx, res):
             d = diff_snap(before_settings, settings_snapshot())
             if d and what is None:
                 what = 'process-wide settings changed: %s' % d
+            if 'MathArray._negative_powers' in d:
+                from mitxgraders.helpers.calc.math_array import MathArray
+                MathArray._negative_powers = MathArray._default_negative_powers
             if what:
                 res.witnesses.append({'key': 'construct:%s/%s' % (name, mode), 'kind': 'construct', 'case': name,
                                       'mode': mode, 'grader': cls.__name__, 'what': what})
@@ -1125,24 +1149,28 @@ def construction_checks(ctx, res):
         ItemGrader.register_defaults({'wrong_msg': 'W'})
         StringGrader.register_defaults({'case_sensitive': False})
         mid = settings_snapshot()
-        g = StringGrader(answers='Cat')
-        r1 = core.guarded(g, None, 'cat')
-        r2 = core.guarded(FormulaGrader(answers='1'), None, '2')
-        res.oracle_evals += 2
+        r1 = core.guarded(lambda: StringGrader(answers='Cat')(None, 'cat'))
+        r2 = core.guarded(lambda: FormulaGrader(answers='1')(None, '2'))
+        r3 = core.guarded(lambda: StringGrader(answers='Cat', case_sensitive=True, wrong_msg='mine')(None, 'cat'))
+        res.oracle_evals += 3
         what = None
         if diff_snap(mid, settings_snapshot()):
             what = 'construction/grading changed registered defaults: %s' % diff_snap(mid, settings_snapshot())
         elif not (r1[0] == 'ret' and r1[1]['ok'] is True):
-            what = 'registered default case_sensitive=False not applied: %r' % (r1,)
+            what = 'default case_sensitive=False registered on StringGrader not applied to a StringGrader: %r' % (r1[1],)
         elif not (r2[0] == 'ret' and r2[1]['msg'] == 'W'):
-            what = 'default registered on ItemGrader not inherited by FormulaGrader: %r' % (r2,)
+            what = ('a FormulaGrader built while defaults are registered on ItemGrader (wrong_msg) and on StringGrader '
+                    '(case_sensitive) should only see the former: %r' % (r2[1],))
+        elif not (r3[0] == 'ret' and r3[1]['ok'] is False and r3[1]['msg'] == 'mine'):
+            what = 'explicit configuration does not override registered defaults: %r' % (r3[1],)
         elif sorted(diff_snap(before, mid)) != ['ItemGrader.default_values', 'StringGrader.default_values']:
             what = 'register_defaults touched other classes: %s' % diff_snap(before, mid)
         if what:
             res.witnesses.append({'key': 'defaults:register', 'kind': 'defaults', 'what': what})
     finally:
-        StringGrader.clear_registered_defaults()
-        ItemGrader.clear_registered_defaults()
+        for c in all_schema_classes():
+            if vars(c).get('default_values') is not None:
+                c.clear_registered_defaults()
     if diff_snap(before, settings_snapshot()):
         res.witnesses.append({'key': 'defaults:clear', 'kind': 'defaults',
                               'what': 'clear_registered_defaults does not restore: %s' % diff_snap(before, settings_snapshot())})
